@@ -412,7 +412,7 @@ def vec_of(i, signs):
 
 
 def scenario(pre, values, adds=(), dels=(), split_after=2, n_trees=1, seeds=(0, 1, 2, 3, 4, 5), add_signs=None,
-             extra_steps=()):
+             extra_steps=(), second_tree=False):
     pos = placement(pre, values)
     lines = ["dim 2"]
     depth_of = {}
@@ -439,7 +439,11 @@ def scenario(pre, values, adds=(), dels=(), split_after=2, n_trees=1, seeds=(0, 
     for i, signs in sorted(pos.items()):
         lines.append(f"raw_item {i} {vec_of(i, signs)}")
     root_t = z3.simplify(pre.root.f[1]).as_long()
-    lines.append(f"raw_meta roots={root_t} items=" + ",".join(str(i) for i in sorted(pos)))
+    if second_tree:
+        lines.append("raw_bucket 10 " + ",".join(str(i) for i in sorted(pos)))
+        lines.append(f"raw_meta roots={root_t},10 items=" + ",".join(str(i) for i in sorted(pos)))
+    else:
+        lines.append(f"raw_meta roots={root_t} items=" + ",".join(str(i) for i in sorted(pos)))
     for i in adds:
         signs = (add_signs or {}).get(i, [1, 1])
         lines.append(f"add {i} {vec_of(i, signs)}")
@@ -538,6 +542,180 @@ def build_scenario(kind, v):
             return scenario(pre, vals, adds=adds, split_after=sa, add_signs=add_signs)
         if kind == "delete":
             return scenario(pre, vals, dels=vals.get("set:to_delete", []), split_after=sa)
+        if kind == "delete_trees":
+            stored = set(placement(pre, vals))
+            gone = [i for i in vals.get("set:already_deleted_items", []) if i in stored]
+            # keep the index larger than one bucket so that build does not take the single-bucket shortcut
+            return scenario(pre, vals, dels=gone, split_after=1, n_trees=max(1, int(vals.get("target_n_trees", 1))),
+                            seeds=(0,), second_tree=True)
     except Exception as e:  # scenario construction is best effort
         return None
     return None
+
+
+# ------------------------------------------------------------------------------------ delete_items_in_file
+def run_delete(ctx, shapes, deadline):
+    eng = make_engine(ctx)
+    fn = find_fn(ctx.fns, r"writer::.*::delete_items_in_file$")
+    results = {"paths": 0, "violations": [], "unknown": [], "shapes": []}
+    for shape in shapes:
+        pre = Pre(shape)
+        dele = z3.BitVec("to_delete", U)
+        split_after = z3.BitVec("split_after", 64)
+        index = z3.BitVec("index", 16)
+        pc = list(pre.cond) + [z3.UGE(split_after, 1), z3.ULE(split_after, 3)]
+        remaining = pre.items & ~dele
+        env = {"store": dict(pre.store), "frozen": dict(pre.store), "stored_items": remaining,
+               "leafs": BV(0, U), "tmp": {"puts": [], "deleted": [], "remap": []}, "sides": []}
+        root_t = z3.simplify(pre.root.f[1])
+        args = [Ref(Cell(writer_value(index))), Ref(Cell(options_value(split_after))), Ref(Cell(Opaque("RoTxn"))),
+                root_t, Ref(Cell(Opaque("TmpNodes"))), Ref(Cell(dele))]
+        finals = eng.run(fn, args, env=env, pc=pc, deadline=deadline)
+        n_ok = 0
+        for f in finals:
+            results["paths"] += 1
+            extra = [("set:to_delete", dele), ("split_after", split_after)]
+            if f.status in ("unknown", "unwind"):
+                results["unknown"].append(f"{shape.name}: {f.status}: {f.info}")
+                continue
+            if f.status == "panic":
+                ok, m = eng.check(f.pc)
+                if ok:
+                    fr_ok, fm = eng.check(f.pc + replay_friendly(pre, split_after))
+                    results["violations"].append({"shape": shape.name, "clause": "panics: " + f.info, "pre": pre,
+                                                  "values": model_values(fm if fr_ok else m, pre, extra)})
+                continue
+            rv = f.value
+            if not z3.is_true(z3.simplify(rv.disc == BV(0, 64))):
+                ok, m = eng.check(f.pc)
+                if ok:
+                    results["violations"].append({"shape": shape.name, "clause": "returns Err although nothing failed",
+                                                  "pre": pre, "values": model_values(m, pre, extra)})
+                continue
+            n_ok += 1
+            try:
+                new_root, ret_items = rv.f[0].f[0], rv.f[0].f[1]
+                post, _deleted = apply_tmp(eng, pre.store, f.env["tmp"])
+                v = check_inv(eng, f.pc, post, W.tree_id(new_root), remaining, remaining, "delete")
+                if v is None:
+                    ok, m = eng.check(f.pc, ret_items != remaining)
+                    if ok:
+                        v = {"clause": "the returned item set differs from the items left under the node", "model": m,
+                             "cond": ret_items != remaining}
+            except E.Unknown as e:
+                results["unknown"].append(f"{shape.name}: {e}")
+                continue
+            if v is not None:
+                m = v["model"]
+                try:
+                    fr_ok, fm = eng.check(f.pc + replay_friendly(pre, split_after), v.get("cond"))
+                    if fr_ok:
+                        m = fm
+                except E.Unknown:
+                    pass
+                results["violations"].append({"shape": shape.name, "clause": v["clause"], "pre": pre,
+                                              "values": model_values(m, pre, extra)})
+        results["shapes"].append({"shape": shape.name, "paths": len(finals), "ok_paths": n_ok})
+    results["queries"], results["solver_s"] = eng.queries, round(eng.solver_s, 2)
+    results["encoded"] = sorted(E.short(n) for n in eng.encoded)
+    return results
+
+
+def delete_obligation(o, tier, seed):
+    import e2
+    import native
+    from driver import Outcome
+    try:
+        ctx = e2.context(True)
+    except RuntimeError as e:
+        return [Outcome(o["id"], "mirsym", "inconclusive", str(e))]
+    shapes = SHAPES_THOROUGH if tier == "thorough" else SHAPES_QUICK
+    r = run_delete(ctx, shapes, time.time() + (2400 if tier == "thorough" else 600))
+    return outcomes_from(o, r, "delete", native, e2, Outcome)
+
+
+# ------------------------------------------------------------------------------------ delete_extra_trees / delete_tree
+def run_delete_trees(ctx, shapes, deadline):
+    """Forest = tree A (the shape, root id 0) + tree B (a single bucket with the same items, id 10).
+    State in which build calls it: items deleted in the same batch are already gone from the store."""
+    eng = make_engine(ctx)
+    fn = find_fn(ctx.fns, r"writer::.*::delete_extra_trees$")
+    results = {"paths": 0, "violations": [], "unknown": [], "shapes": []}
+    for shape in shapes:
+        pre = Pre(shape)
+        gone = z3.BitVec("already_deleted_items", U)
+        target = z3.BitVec("target_n_trees", 64)
+        index = z3.BitVec("index", 16)
+        pc = list(pre.cond) + [z3.ULE(target, 3)]
+        store = dict(pre.store)
+        store[10] = W.bucket(pre.items)
+        root_t = z3.simplify(pre.root.f[1]).as_long()
+        roots = W.mk_vec([BV(root_t, 32), BV(10, 32)])
+        env = {"store": dict(store), "frozen": {}, "stored_items": pre.items & ~gone, "leafs": BV(0, U),
+               "tmp": {"puts": [], "deleted": [], "remap": []}, "sides": []}
+        roots_cell = Cell(roots)
+        env["roots_cell"] = roots_cell
+        args = [Ref(Cell(writer_value(index))), Ref(Cell(Opaque("RwTxn"))), Ref(Cell(options_value(BV(2, 64)))),
+                Ref(roots_cell), target]
+        finals = eng.run(fn, args, env=env, pc=pc, deadline=deadline)
+        n_ok = 0
+        for f in finals:
+            results["paths"] += 1
+            extra = [("set:already_deleted_items", gone), ("target_n_trees", target)]
+            if f.status in ("unknown", "unwind"):
+                results["unknown"].append(f"{shape.name}: {f.status}: {f.info}")
+                continue
+            if f.status == "panic":
+                ok, m = eng.check(f.pc)
+                if ok:
+                    results["violations"].append({"shape": shape.name, "clause": "panics: " + f.info, "pre": pre,
+                                                  "values": model_values(m, pre, extra)})
+                continue
+            rv = f.value
+            if not z3.is_true(z3.simplify(rv.disc == BV(0, 64))):
+                ok, m = eng.check(f.pc)
+                if ok:
+                    results["violations"].append({"shape": shape.name,
+                                                  "clause": "deleting an extraneous tree fails (returns Err) although the store did not fail",
+                                                  "pre": pre, "values": model_values(m, pre, extra)})
+                continue
+            n_ok += 1
+            left = [z3.simplify(x).as_long() for x in f.env["roots_cell"].v.f["items"]]
+            post = f.env["store"]
+            tv = None
+            okk, m = eng.check(f.pc)
+            tval = m.eval(target, model_completion=True).as_long() if okk else 0
+            want = min(2, tval)
+            # which trees must survive: delete_extra_trees removes from the front (oldest first)
+            problems = []
+            if len(left) != want:
+                problems.append(f"{len(left)} roots left for target {tval} (expected {want})")
+            a_nodes = set(pre.store.keys())
+            if root_t in left:
+                if not a_nodes <= set(post):
+                    problems.append("a node of a surviving tree was deleted")
+            else:
+                if a_nodes & set(post):
+                    problems.append(f"nodes {sorted(a_nodes & set(post))} of a removed tree are left behind")
+            if (10 in left) != (10 in post):
+                problems.append("bucket tree: root list and store disagree")
+            if problems and okk:
+                results["violations"].append({"shape": shape.name, "clause": problems[0], "pre": pre,
+                                              "values": model_values(m, pre, extra)})
+        results["shapes"].append({"shape": shape.name, "paths": len(finals), "ok_paths": n_ok})
+    results["queries"], results["solver_s"] = eng.queries, round(eng.solver_s, 2)
+    results["encoded"] = sorted(E.short(n) for n in eng.encoded)
+    return results
+
+
+def delete_trees_obligation(o, tier, seed):
+    import e2
+    import native
+    from driver import Outcome
+    try:
+        ctx = e2.context(True)
+    except RuntimeError as e:
+        return [Outcome(o["id"], "mirsym", "inconclusive", str(e))]
+    shapes = SHAPES_THOROUGH if tier == "thorough" else SHAPES_QUICK
+    r = run_delete_trees(ctx, shapes, time.time() + 900)
+    return outcomes_from(o, r, "delete_trees", native, e2, Outcome)
